@@ -614,3 +614,8 @@ Definition judge_twin (a b c : run_obs) : string :=
    " again=" ++ b2s again ++ " respaced=" ++ b2s respaced ++ " replayable=" ++ b2s (no_mismatch c) ++
    " starts=" ++ N2s (nstarts a) ++ " END")%string.
 
+(** C11, last clause of its first sentence: the spec's own initial value supplied as the guess
+    gives the same run (same actions replayed) as supplying none *)
+Definition judge_guess_twin (a d : run_obs) : string :=
+  let same := same_run a d && same_shape a d && no_mismatch d in
+  ("GTWIN idx=" ++ N2s (ro_idx a) ++ " acc=ok C11=" ++ b2s same ++ " starts=" ++ N2s (nstarts a) ++ " END")%string.
